@@ -50,6 +50,77 @@ def to_ast(e, ids):
     raise ValueError(e)
 
 
+class Layout:
+    """Renders forms to source text with seeded line breaks / indentation and records, for every node id
+    (assigned exactly as to_ast assigns them), the (line, col) at which the node starts."""
+
+    def __init__(self, rnd=None):
+        self.rnd = rnd
+        self.buf = []
+        self.line, self.col = 1, 1
+        self.pos = {}
+
+    def w(self, text):
+        for ch in text:
+            self.buf.append(ch)
+            if ch == "\n":
+                self.line += 1
+                self.col = 1
+            else:
+                self.col += 1
+
+    def sep(self, depth):
+        if self.rnd is not None and self.rnd.random() < 0.25:
+            self.w("\n" + " " * self.rnd.randrange(0, 2 + 2 * depth))
+        else:
+            self.w(" " * (1 if self.rnd is None else 1 + (self.rnd.random() < 0.1)))
+
+    def emit(self, e, ids, depth=0, start=None):
+        here = start or (self.line, self.col)
+        if isinstance(e, bool):
+            self.pos[ids.next()] = here
+            self.w("true" if e else "false")
+        elif isinstance(e, int):
+            self.pos[ids.next()] = here
+            self.w(str(e))
+        elif isinstance(e, list):
+            self.pos[ids.next()] = here
+            self.w("(")
+            for j, x in enumerate(e):
+                if j:
+                    self.sep(depth + 1)
+                self.emit(x, ids, depth + 1)
+            self.w(")")
+        elif e[0] == "q":
+            self.w("'")
+            self.emit(e[1], ids, depth, start=here)
+        elif e[0] == "src":
+            self.pos[ids.next()] = here
+            self.w(P.render(e))
+        else:
+            self.pos[ids.next()] = here
+            self.w(P.render(e))
+
+    def forms(self, forms, ids):
+        for f in forms:
+            self.emit(f, ids)
+            self.w("\n" if self.rnd is None or self.rnd.random() < 0.7 else "\n\n  ")
+        return "".join(self.buf)
+
+
+def prog_with_layout(pid, evals, cfg=None, modes=None, rnd=None):
+    """prog_record plus the source text of every evaluation and the node-id -> (evaluation, line, col) map"""
+    rec = prog_record(pid, evals, cfg, modes)
+    ids = Ids()
+    srcs, pos = [], {}
+    for k, forms in enumerate(evals):
+        lay = Layout(rnd)
+        srcs.append(lay.forms(forms, ids))
+        for i, lc in lay.pos.items():
+            pos[i] = (k, lc[0], lc[1])
+    return rec, srcs, pos
+
+
 def prog_record(pid, evals, cfg=None, modes=None):
     ids = Ids()
     c = {"tro": True, "budget": 0, "cancel": 0, "noctx": 0, "maxphys": 25000, "maxtail": 1000000, "maxnest": 100000, "maxmacro": 1000}
